@@ -18,11 +18,12 @@ import (
 // Edit is one byte-level change. Edits that do not fit the current data are ignored (so that every
 // edit list is applicable: shrinking and replay can never produce an invalid case).
 type Edit struct {
-	Op  string `json:"op"`            // trunc | set8 | set16 | set32 | xor8 | splice
+	Op  string `json:"op"`            // trunc | set8 | set16 | set32 | xor8 | splice | append (at the end of the data)
 	Off int    `json:"off"`           // position (trunc: new length)
 	Val uint32 `json:"val,omitempty"` // value for set*/xor8 (big endian)
 	Len int    `json:"len,omitempty"` // splice: number of bytes removed at Off
-	Hex string `json:"hex,omitempty"` // splice: bytes inserted at Off
+	Hex string `json:"hex,omitempty"` // splice / append: bytes inserted
+	Rep int    `json:"rep,omitempty"` // append: the bytes are repeated Rep times (0 = once): keeps large regular bodies small
 }
 
 // Case is the decoded form of a mutant: base font + edits, or raw bytes for tiny inputs.
@@ -57,6 +58,15 @@ func applyEdits(base []byte, edits []Edit) []byte {
 		case "set32":
 			if e.Off >= 0 && e.Off+4 <= len(data) {
 				binary.BigEndian.PutUint32(data[e.Off:], e.Val)
+			}
+		case "append":
+			ins, err := hex.DecodeString(e.Hex)
+			if err != nil || e.Rep < 0 || e.Rep > 1<<20 || len(ins)*e.Rep > 8<<20 {
+				continue
+			}
+			data = append(data, ins...)
+			for k := 1; k < e.Rep; k++ {
+				data = append(data, ins...)
 			}
 		case "splice":
 			ins, err := hex.DecodeString(e.Hex)
